@@ -365,9 +365,23 @@ def build_go_driver(pkgdir, overlay_dir, race=False):
     return rc, out, dt, exe
 
 
+def gen_consts_env():
+    """the integer constants the translator regenerated from the source (Gen/Consts.v), for drivers whose
+    inputs are positioned relative to them: VERIF_CONST_<name>=<value>"""
+    env = {}
+    try:
+        txt = open(os.path.join(COQ, "Gen", "Consts.v")).read()
+    except OSError:
+        return env
+    for m in re.finditer(r"Definition (\w+) : Z := \((-?\d+)\)%Z", txt):
+        env["VERIF_CONST_" + m.group(1)] = m.group(2)
+    return env
+
+
 def run_go_driver(exe, prop, tier, seed, out_path, test="TestVerifDriver", timeout=1500, extra_env=None, cwd=None):
     env = dict(os.environ)
     env.update({"VERIF_PROP": prop, "VERIF_TIER": tier, "VERIF_SEED": str(seed), "VERIF_OUT": out_path})
+    env.update(gen_consts_env())
     if extra_env:
         env.update(extra_env)
     for p in (out_path, out_path + ".viol.jsonl", out_path + ".stats.json"):
